@@ -550,15 +550,22 @@ fn toroidal_case<K: Kern<D>, const D: usize>(cx: &mut Ctx, r: &mut Rng, idx: usi
     }
     // periodic image-point mode (2-D): the quotient torus itself
     if D == 2 && idx % 4 == 1 {
-        let lmp: Vec<i64> = vec![8, 8];
-        let npts = 9 + r.below(4);
-        let base = random_points(r, 2, npts, 7);
+        // square and rectangular domains (either axis the longer one)
+        let lmp: Vec<i64> = r.pick(&[vec![8i64, 8], vec![8, 16], vec![16, 8], vec![6, 12]]).clone();
+        let npts = 10 + r.below(4);
+        let mut base: Vec<Vec<i64>> = Vec::new();
+        while base.len() < npts {
+            let p: Vec<i64> = (0..2).map(|j| r.range(0, lmp[j] - 1)).collect();
+            if !base.contains(&p) {
+                base.push(p);
+            }
+        }
         let pin: Vec<VIn> = base
             .iter()
             .enumerate()
             .map(|(i, p)| {
                 // congruent copies: shift by whole periods
-                let m: Vec<i64> = p.iter().map(|x| x + 8 * r.range(-2, 2)).collect();
+                let m: Vec<i64> = p.iter().enumerate().map(|(j, x)| x + lmp[j] * r.range(-2, 2)).collect();
                 VIn::lattice(cx.fresh_uuid(), m, Some(i as i32))
             })
             .collect();
@@ -598,7 +605,44 @@ fn toroidal_case<K: Kern<D>, const D: usize>(cx: &mut Ctx, r: &mut Rng, idx: usi
     cx.tr.s = 0;
 }
 
+/// periodic image-point mode on square and rectangular 2-D domains (rectangular ones often fail to build in the
+/// pinned revision - that is a typed Err; the ones that build are judged)
+fn periodic_case<K: Kern<2>>(cx: &mut Ctx, r: &mut Rng, idx: usize) {
+    let g = GUARANTEES[idx % 3];
+    cx.tr.s = 0;
+    let lmp: Vec<i64> = [vec![8i64, 16], vec![16, 8], vec![6, 12], vec![8, 8], vec![4, 12]][idx % 5].clone();
+    cx.start_case(format!("C16 periodic D=2 k={} L={lmp:?} i={idx}", K::NAME));
+    let npts = 10 + r.below(5);
+    let mut base: Vec<Vec<i64>> = Vec::new();
+    while base.len() < npts {
+        let p: Vec<i64> = (0..2).map(|j| r.range(0, lmp[j] - 1)).collect();
+        if !base.contains(&p) {
+            base.push(p);
+        }
+    }
+    let pin: Vec<VIn> = base
+        .iter()
+        .enumerate()
+        .map(|(i, p)| {
+            let m: Vec<i64> = p.iter().enumerate().map(|(j, x)| x + lmp[j] * r.range(-2, 2)).collect();
+            VIn::lattice(cx.fresh_uuid(), m, Some(i as i32))
+        })
+        .collect();
+    op_construct_toroidal::<K, 2>(&mut cx.tr, 1, g, &lmp, true, &pin);
+}
+
 pub fn drive_toroidal(cx: &mut Ctx) {
+    for i in 0..(if cx.thorough { 160 } else { 40 }) {
+        let mut r = Rng::new(cx.seed * 6_000_029 + i as u64);
+        if !cx.mine() {
+            continue;
+        }
+        if (i / 5) % 2 == 0 {
+            periodic_case::<FastKernel<f64>>(cx, &mut r, i);
+        } else {
+            periodic_case::<RobustKernel<f64>>(cx, &mut r, i);
+        }
+    }
     let per_dim = if cx.thorough { 150 } else { 24 };
     for d in 2..=3usize {
         for i in 0..per_dim {
@@ -673,6 +717,48 @@ fn keytie_case<K: Kern<D>, const D: usize>(cx: &mut Ctx, r: &mut Rng, order: usi
     }
 }
 
+fn gridorder_case<K: Kern<D>, const D: usize>(cx: &mut Ctx, r: &mut Rng, order: usize) {
+    cx.start_case(format!("C14 gridorder D={D} k={} order={order}", K::NAME));
+    let side: i64 = if D == 2 { 4 } else { 2 };
+    let mut pts: Vec<Vec<i64>> = vec![vec![]];
+    for _ in 0..D {
+        pts = pts.iter().flat_map(|p| (0..side).map(move |x| { let mut q = p.clone(); q.push(x); q })).collect();
+    }
+    // outliers: strict minimum on axis 0, strict maximum on the last axis
+    let mut lo = vec![1i64; D];
+    lo[0] = -3;
+    pts.push(lo);
+    let mut hi_p = vec![1i64; D];
+    hi_p[D - 1] = side + 2;
+    pts.push(hi_p);
+    let uuids: Vec<u64> = (0..pts.len()).map(|_| cx.fresh_uuid()).collect();
+    let o = Opts { order, dedup: 0, simplex: 0, retry: 0 };
+    let g = GUARANTEES[1];
+    let n = pts.len();
+    let mut perms: Vec<Vec<usize>> = vec![(0..n).collect(), (0..n).rev().collect()];
+    let step = if cx.thorough { 1 } else { 3 };
+    let mut firsts: Vec<usize> = (0..n).step_by(step).collect();
+    for extra in [n - 2, n - 1] {
+        // the outliers (strict extremes on an axis) always get their turn
+        if !firsts.contains(&extra) {
+            firsts.push(extra);
+        }
+    }
+    for first in firsts {
+        // `first` leads, the rest in a shuffled order
+        let mut rest: Vec<usize> = (0..n).filter(|i| *i != first).collect();
+        r.shuffle(&mut rest);
+        let mut p = vec![first];
+        p.extend(rest);
+        perms.push(p);
+    }
+    for p in &perms {
+        let pp: Vec<Vec<i64>> = p.iter().map(|&i| pts[i].clone()).collect();
+        let uu: Vec<u64> = p.iter().map(|&i| uuids[i]).collect();
+        det_construct::<K, D>(cx, &pp, &uu, Ctor::WithOptions, g, o);
+    }
+}
+
 fn determinism_case<K: Kern<D>, const D: usize>(cx: &mut Ctx, r: &mut Rng, idx: usize) {
     let g = GUARANTEES[idx % 3];
     cx.start_case(format!("C14 determinism D={D} k={} i={idx}", K::NAME));
@@ -692,7 +778,7 @@ fn determinism_case<K: Kern<D>, const D: usize>(cx: &mut Ctx, r: &mut Rng, idx: 
         pts.push(p);
     }
     let uuids: Vec<u64> = (0..pts.len()).map(|_| cx.fresh_uuid()).collect();
-    let o = Opts { order: [3, 1, 2, 0][idx % 4], dedup: (idx / 4) % 3, simplex: (idx / 12) % 2, retry: [0, 1, 3][(idx / 2) % 3] };
+    let o = Opts { order: [3, 1, 2, 0][(idx + idx / 4) % 4], dedup: (idx / 4) % 3, simplex: (idx / 12) % 2, retry: [0, 1, 3][(idx / 2) % 3] };
     let ctor = CTORS[1 + idx % 4];
     // (a) the same slice twice
     for _ in 0..2 {
@@ -774,6 +860,20 @@ pub fn drive_determinism(cx: &mut Ctx, out_path: &str) {
                 }
                 let mut r = Rng::new(cx.seed * 8_000_011 + (d * 100 + k * 10 + oi) as u64);
                 dispatch!(d, k, keytie_case(cx, &mut r, oi));
+            }
+        }
+    }
+    // (g) exactly degenerate sets (grids + an outlier) under every order-insensitive strategy, listed with every
+    //     vertex first in turn: on such input the insertion order decides the cells, so any dependence of the
+    //     ordering on the caller's listing shows
+    for d in 2..=3usize {
+        for k in 0..2usize {
+            for order in 1..4usize {
+                if !cx.mine() {
+                    continue;
+                }
+                let mut r = Rng::new(cx.seed * 8_000_021 + (d * 100 + k * 10 + order) as u64);
+                dispatch!(d, k, gridorder_case(cx, &mut r, order));
             }
         }
     }
@@ -949,6 +1049,73 @@ fn extreme_case<K: Kern<D>, const D: usize>(cx: &mut Ctx, r: &mut Rng, idx: usiz
             let has_bad = dt.vertices().any(|(_, v)| v.point().coords().iter().any(|x| !x.is_finite()));
             cx.tr.emit("RawCheck", 0, serde_json::json!({"what": "non-finite calls"}), serde_json::json!({"unchanged": same, "contains_non_finite": has_bad}), None, false);
         }
+    }
+    // (2b) the public building blocks of insertion with handles of any provenance: stale / foreign keys, facet
+    //      indices out of range, a vertex key that is already in the cell (each call on a copy of the Tds)
+    {
+        use delaunay::core::algorithms::incremental_insertion::{extend_hull, fill_cavity, repair_neighbor_pointers, wire_cavity_neighbors};
+        use delaunay::core::algorithms::locate::{extract_cavity_boundary, find_conflict_region};
+        use delaunay::core::facet::FacetHandle;
+        let (fk, _, fv) = crate::ops2::stale_and_foreign(&dt, &cx.tr, cx.seed + idx as u64);
+        let live_c: Vec<CellKey> = dt.tds().cell_keys().take(2).collect();
+        let live_v: Vec<VertexKey> = dt.tds().vertex_keys().collect();
+        let mut cell_keys: Vec<CellKey> = live_c.clone();
+        cell_keys.extend(fk);
+        let mut vkeys: Vec<VertexKey> = vec![live_v[0], *live_v.last().unwrap()];
+        vkeys.extend(fv);
+        let q = Point::new([0.5f64; D]);
+        for &ck in &cell_keys {
+            let t = dt.tds().clone();
+            raw_call(&mut cx.tr, "find_conflict_region(any start cell)", serde_json::json!({"live": dt.tds().contains_cell(ck)}), || {
+                match find_conflict_region(&t, &K::default(), &q, ck) {
+                    Ok(r) => format!("Ok:{}", r.len()),
+                    Err(e) => format!("Err:{}", variant(&e)),
+                }
+            });
+            let mut buf = delaunay::core::collections::CellKeyBuffer::new();
+            buf.push(ck);
+            raw_call(&mut cx.tr, "extract_cavity_boundary(any cells)", serde_json::json!({"live": dt.tds().contains_cell(ck)}), || {
+                match extract_cavity_boundary(&t, &buf) {
+                    Ok(r) => format!("Ok:{}", r.len()),
+                    Err(e) => format!("Err:{}", variant(&e)),
+                }
+            });
+            for fi in [0u8, D as u8, D as u8 + 1, 7, 255] {
+                for &vk in &vkeys {
+                    let mut t2 = dt.tds().clone();
+                    let detail = serde_json::json!({"live_cell": dt.tds().contains_cell(ck), "facet": fi, "live_vertex": dt.tds().contains_vertex_key(vk)});
+                    raw_call(&mut cx.tr, "fill_cavity(any facet handle, any vertex key)", detail.clone(), || {
+                        match fill_cavity(&mut t2, vk, &[FacetHandle::new(ck, fi)]) {
+                            Ok(r) => format!("Ok:{}", r.len()),
+                            Err(e) => format!("Err:{}", variant(&e)),
+                        }
+                    });
+                    let mut t3 = dt.tds().clone();
+                    let mut nc = delaunay::core::collections::CellKeyBuffer::new();
+                    nc.push(ck);
+                    raw_call(&mut cx.tr, "wire_cavity_neighbors(any handles)", detail, || {
+                        match wire_cavity_neighbors(&mut t3, &nc, [FacetHandle::new(ck, fi)], None) {
+                            Ok(()) => "Ok".into(),
+                            Err(e) => format!("Err:{}", variant(&e)),
+                        }
+                    });
+                }
+            }
+        }
+        for &vk in &vkeys {
+            let mut t4 = dt.tds().clone();
+            raw_call(&mut cx.tr, "extend_hull(any vertex key)", serde_json::json!({"live_vertex": dt.tds().contains_vertex_key(vk)}), || {
+                match extend_hull(&mut t4, &K::default(), vk, &Point::new([1e3f64; D])) {
+                    Ok(r) => format!("Ok:{}", r.len()),
+                    Err(e) => format!("Err:{}", variant(&e)),
+                }
+            });
+        }
+        let mut t5 = dt.tds().clone();
+        raw_call(&mut cx.tr, "repair_neighbor_pointers", serde_json::json!({}), || match repair_neighbor_pointers(&mut t5) {
+            Ok(n) => format!("Ok:{n}"),
+            Err(e) => format!("Err:{}", variant(&e)),
+        });
     }
     // (3) mixed raw magnitudes in one construction / insertion history: only C19 is judged
     cx.start_case(format!("C19 magnitudes D={D} k={} i={idx}", K::NAME));
